@@ -148,6 +148,9 @@ func cmdLayout(args []string) int {
 	if len(args) > 3 {
 		repo = args[3]
 	}
+	if os.Getenv("BMCVERIF_FIXTURES") != "" {
+		modPath, minModulePackages = "fixtures", 1
+	}
 	c, err := loadRepo(repo, "quick", "amd64")
 	if err != nil {
 		fmt.Fprintln(os.Stderr, err)
